@@ -110,6 +110,12 @@ def run(ctx):
                 ref = common.call(o.get_PPII_propensity, mode.lower())
                 if alt[0] != ref[0] or (alt[0] == "ok" and not common.close(alt[1], Fraction(float(ref[1])), tol=Fraction(1, 10**12))):
                     ctx.violation("param-" + q, {"seq": var, "mode": mode}, expected=ref, actual=alt)
+            if (i + len(pair)) % 3 == 0:
+                # the entry points that write the composition out (file, rendering) first: they must not touch what is asked next
+                from ..objects import apply_call
+                for c_ in ({"call": "write_compfile"}, {"call": "get_HTMLColorString"}, {"call": "save_phaseDiagramPlot"})[:ctx.rng.randint(1, 3)]:
+                    apply_call(o, c_)
+                    hist = hist + [c_]
             outs = all_replies(o)
             ctx.evaluations += 1
             tid += 1
